@@ -14,6 +14,7 @@ import HT.Model.Agent
 import HT.Model.Ipp
 import HT.Model.Proto
 import HT.Model.Iso
+import HT.Model.Release
 /-!
 Line-protocol driver: one case per input line, `<model> <args…>`; one output line
 per case.  Core Lean only (so it links as an executable).
@@ -42,6 +43,7 @@ def dispatch (line : String) : String :=
   | "ipp" :: args => Ipp.driver args
   | "seg" :: args => Proto.driver args
   | "iso" :: args => Iso.driver args
+  | "rel" :: args => Rel.driver args
   | _ => "bad-model"
 
 partial def loop (h : IO.FS.Stream) (out : IO.FS.Stream) : IO Unit := do
